@@ -131,7 +131,9 @@ func main() {
 		behaviour{name: "write(200,template-that-fails-at-execution,Content-Length set)", script: fmt.Sprintf("hdr:Content-Length=%d;status:200;write:%s;ret:0", len(tplErr), tplErr), wrote: true, status: 200, body: tplErr})
 	behaviours = append(behaviours,
 		behaviour{name: "panic-before-writing", script: "panic", panics: "before"},
-		behaviour{name: "panic-after-writing", script: "status:200;write:x;panic", panics: "after", wrote: true, status: 200, body: "x"})
+		behaviour{name: "panic-after-writing", script: "status:200;write:x;panic", panics: "after", wrote: true, status: 200, body: "x"},
+		// the panic value net/http uses to abort a handler quietly: inside casket it is a panic like any other
+		behaviour{name: "panic(http.ErrAbortHandler)-before-writing", script: "panic:abort", panics: "before"})
 	paths := []string{"/x", "/t.html", "/teapot", "/int/y"}
 	rep.Set("sites", len(subsets))
 	rep.Set("behaviours", len(behaviours))
